@@ -12,10 +12,10 @@
    Part 2 transcribes, statement by statement, everything builtin-actors builds ON TOP of those
    primitives.  Part 3 packs the instructions into `impl_ops : word_ops` in the argument order of
    `def_primop!` in instructions/mod.rs (`let &rev![a, b] = pop_many()` makes `a` the top of the stack).
-   Part 4 is the plumbing of the per-instruction correspondence check.
+   The plumbing of the per-instruction correspondence check is in Model/EvmWordCorr.v.
    Definitions only; the proofs are in Proofs/EvmWord_lemmas.v. *)
 From Coq Require Import ZArith List Bool.
-From VF Require Import Base.Corr Model.EvmSpec.
+From VF Require Import Model.EvmSpec.
 Import ListNotations.
 Open Scope Z_scope.
 
@@ -220,46 +220,3 @@ Definition impl_ops : word_ops := {|
   w_and := i_and; w_or := i_or; w_xor := i_xor; w_not := i_not;
   w_byte := i_byte; w_shl := i_shl; w_shr := i_shr; w_sar := i_sar; w_clz := i_clz;
 |}.
-
-(* ------------------------------------------------------------------------------------------------ *)
-(* Part 4: per-instruction correspondence.  An operation is (opcode byte, a, b, c): the instruction
-   at that byte of the jump table in interpreter/execution.rs applied to a stack whose top is a,
-   then b, then c (unused operands are ignored).  The observation is
-   [spec result; impl-model result]; the harness records [r; r] with r the 32-byte word the real
-   interpreter returned, so BOTH the specification and the transcribed algorithm are compared with
-   the real code on every case.  Unknown opcode -> [-1; -1]. *)
-Inductive wop := WOp (opcode a b c : Z).
-
-Definition apply_op (o : word_ops) (opcode a b c : Z) : Z :=
-  if opcode =? 1 then w_add o a b else
-  if opcode =? 2 then w_mul o a b else
-  if opcode =? 3 then w_sub o a b else
-  if opcode =? 4 then w_div o a b else
-  if opcode =? 5 then w_sdiv o a b else
-  if opcode =? 6 then w_mod o a b else
-  if opcode =? 7 then w_smod o a b else
-  if opcode =? 8 then w_addmod o a b c else
-  if opcode =? 9 then w_mulmod o a b c else
-  if opcode =? 10 then w_exp o a b else
-  if opcode =? 11 then w_signextend o a b else
-  if opcode =? 16 then w_lt o a b else
-  if opcode =? 17 then w_gt o a b else
-  if opcode =? 18 then w_slt o a b else
-  if opcode =? 19 then w_sgt o a b else
-  if opcode =? 20 then w_eq o a b else
-  if opcode =? 21 then w_iszero o a else
-  if opcode =? 22 then w_and o a b else
-  if opcode =? 23 then w_or o a b else
-  if opcode =? 24 then w_xor o a b else
-  if opcode =? 25 then w_not o a else
-  if opcode =? 26 then w_byte o a b else
-  if opcode =? 27 then w_shl o a b else
-  if opcode =? 28 then w_shr o a b else
-  if opcode =? 29 then w_sar o a b else
-  if opcode =? 30 then w_clz o a else -1.
-
-Definition stepo (st : unit) (o : wop) : unit * list Z :=
-  let '(WOp code a b c) := o in
-  (st, [apply_op spec_ops code a b c; apply_op impl_ops code a b c]).
-
-Definition check_case := @Corr.check unit wop stepo.
